@@ -10,6 +10,8 @@ cp -f /repo/Cargo.lock harness/Cargo.lock 2>/dev/null || true
 python3 gen/C15_pre_lean.py
 (cd lean && (lake build || lake build sentinel-model))
 (cd harness-tower && cargo build --offline)
+cp -f /repo/Cargo.lock harness-ds/Cargo.lock 2>/dev/null || true
+(cd harness-ds && cargo build --offline)
 cp -f /repo/Cargo.lock harness-mlog/Cargo.lock 2>/dev/null || true
 (cd harness-mlog && cargo build --offline)
 echo setup-ok
